@@ -60,9 +60,9 @@ func init() {
 			r := Sub(seed, "config")
 			s := &C09Spec{Orders: genOrders(r, seed), TapeSeed: mix(seed, "tape"), AllReads: tier == "thorough" || r.Chance(0.25)}
 			if r.Chance(0.5) {
-				cc := genCharCfg(r, charOpt{maxLen: 16, maxReq: 3, noEmptied: true})
+				cc := genCharCfg(r, charOpt{maxLen: 16, maxReq: 3, noEmptied: r.Chance(0.7)})
 				if r.Chance(0.5) {
-					cc = genCharCfg(r, charOpt{small: true, budget: 4000, maxLen: 6, maxReq: 3, noEmptied: true})
+					cc = genCharCfg(r, charOpt{small: true, budget: 4000, maxLen: 6, maxReq: 3, noEmptied: r.Chance(0.7)})
 				}
 				if r.Chance(0.015) {
 					// very long passwords (bulk paths, block boundaries)
